@@ -363,12 +363,37 @@ func moSortedBeforeUse(c *Ctx, p *packages.Package, target string, rest []ast.St
 			}
 			return "is sorted with an order not known to be total", false
 		case "Slice", "SliceStable":
-			for _, o := range c.run(engines["LX"]) {
-				if o.Rule == "LX-total" && o.Status == Discharged {
-					return "sort." + sel.Sel.Name + " with a comparator that ends in a unique key (LX-total)", true
+			// the comparator of THIS call must be a chain that ends in a key that is unique per element
+			lit, _ := call.Args[1].(*ast.FuncLit)
+			if lit == nil || len(call.Args) != 2 {
+				return "is sorted with a comparator that is not a function literal", false
+			}
+			var ps []string
+			for _, f := range lit.Type.Params.List {
+				for _, n := range f.Names {
+					ps = append(ps, n.Name)
 				}
 			}
-			return "is sorted with a comparator that leaves ties (LX-total not discharged): elements that tie keep their random map order", false
+			if len(ps) != 2 {
+				return "is sorted with an unexpected comparator", false
+			}
+			acc := map[string]bool{}
+			for _, o := range c.run(engines["LX"]) {
+				if o.Rule == "LX-swo" && o.Status == Discharged {
+					acc[o.Key] = true
+				}
+			}
+			e := &lxEnv{info: p.TypesInfo, fset: c.L.Fset, pair: map[string]string{ps[0]: ps[1], ps[1]: ps[0]}, acc: acc, l: ps[0], r: ps[1], leftLocals: map[string]bool{}}
+			res := e.analyse(lit.Body)
+			if !res.ok {
+				return "is sorted with a comparator that is not a recognised strict order: " + res.why, false
+			}
+			last := strings.ReplaceAll(res.last, " ", "")
+			unique := res.total && (strings.HasSuffix(last, ".IDs[0]") || last == target+"["+ps[0]+"]")
+			if unique {
+				return "sort." + sel.Sel.Name + " with a comparator chain that ends in a key unique per element (" + res.last + ")", true
+			}
+			return "is sorted with a comparator that leaves ties: elements that tie keep their random map order", false
 		}
 		return "is used before being sorted", false
 	}
